@@ -197,10 +197,29 @@ def run_case(case):
         if kind == "file":
             # the accessor is obtained the way the scripts obtain it (URL/path + option
             # dictionary) in half of the histories, directly from the class otherwise
-            how = rnd.choice(["class", "path+options", "file-url+options"])
+            how = rnd.choice(["class", "path+options", "file-url+options", "path+argv"])
             obs["writer_opened_via"] = {how: 1}
             if how == "class":
                 acc = file_accessor.FileAccessor(base, **cfg)
+            elif how == "path+argv":
+                # ... or from command-line arguments in their documented spellings, parsed
+                # by the option group every script installs
+                import argparse
+                argv = ["--compresslevel", str(cfg["compresslevel"])]
+                if not cfg["gzip"]:
+                    spelling = rnd.choice(["--no-gzip", "--no-compression"])
+                    obs["no_gzip_spellings"] = {spelling: 1}
+                    argv.insert(rnd.randrange(2) * 2, spelling)
+                if cfg["flat"]:
+                    argv.append("--flat")
+                parser = argparse.ArgumentParser()
+                accessor_mod.add_argparse_options(parser)
+                acc = accessor_mod.get_accessor_for_url(base, vars(parser.parse_args(argv)))
+                ctx += f" argv={argv}"
+                if not isinstance(acc, file_accessor.FileAccessor):
+                    return {"violations": [{"kind": "dispatch-not-a-file-accessor",
+                                            "detail": f"{how} {argv}: {type(acc).__name__}"}],
+                            "obs": obs}
             else:
                 acc = accessor_mod.get_accessor_for_url(
                     base if how == "path+options" else "file://" + urllib.parse.quote(base),
@@ -440,4 +459,7 @@ def gates(obs, tier):
         "escape_attempts_refused": obs.get("escape_refused", 0) > 1000,
         "gz_files_audited": obs.get("gz_files_audited", 0) > 100,
         "payloads_beyond_64KiB": obs.get("payloads_over_64KiB", 0) > 20,
+        "both_command_line_spellings_of_no_gzip": all(
+            obs.get("no_gzip_spellings", {}).get(k, 0) > 3
+            for k in ("--no-gzip", "--no-compression")),
     }
